@@ -134,6 +134,16 @@ func dense(r *runner) {
 	}
 	denseEnum(r, "counter", csyms, c.N(4, 5), Case{Agg: "counter", Full: true}, nil)
 
+	// more fields than the aggregator uses ({$ key inc note}, a trailing separator): the increment is the field right
+	// after the key(s), whatever follows is not part of it
+	xsyms := []string{"a", "a" + nul + "5" + nul + "extra", "a" + nul + "-2" + nul, "b" + nul + "3" + nul + "4", "a" + nul + "x" + nul + "1",
+		"b" + nul + nul + "7", "a" + nul + "1" + nul + nul}
+	denseEnum(r, "counter-extra-fields", xsyms, c.N(3, 4), Case{Agg: "counter", Full: true}, nil)
+	x3syms := []string{"a" + nul + "x", "a" + nul + "x" + nul + "5" + nul + "extra", "a" + nul + "y" + nul + "-2" + nul,
+		"b" + nul + "x" + nul + "3" + nul + "4", "a" + nul + "x" + nul + "q" + nul + "1", "b" + nul + "y" + nul + nul + "7"}
+	denseEnum(r, "subkey-extra-fields", x3syms, c.N(3, 4), Case{Agg: "subkey", Full: true}, nil)
+	denseEnum(r, "table-extra-fields", x3syms, c.N(3, 4), Case{Agg: "table", Delim: strconv.QuoteToASCII(nul), Full: true}, nil)
+
 	// sub-key counter and table: full alphabet, and a reduced one one step longer
 	mk3 := func(delim string, ks, ss, incs []string) []string {
 		var out []string
@@ -353,6 +363,15 @@ func incString(rr *run.Rand) (s string, present bool) {
 	}
 }
 
+// extraFields: one sample in ten carries fields beyond the increment (or just a trailing separator); they belong to
+// nothing the aggregator folds.
+func extraFields(rr *run.Rand, delim string) string {
+	if rr.Intn(10) != 0 {
+		return ""
+	}
+	return delim + []string{"", "x", "7", "note", "-1" + delim + "2", delim}[rr.Intn(6)]
+}
+
 func directInc(rr *run.Rand) string {
 	switch rr.Intn(6) {
 	case 0:
@@ -387,7 +406,7 @@ func genCounter(rr *run.Rand, c *run.Ctx) (*Case, []string) {
 		if cs.Direct {
 			samples[i] = k + directSep + directInc(rr)
 		} else if inc, ok := incString(rr); ok {
-			samples[i] = k + nul + inc
+			samples[i] = k + nul + inc + extraFields(rr, nul)
 		} else {
 			samples[i] = k
 		}
@@ -419,7 +438,7 @@ func genSubKey(rr *run.Rand, c *run.Ctx) (*Case, []string) {
 			samples[i] = k // no sub-key part at all
 		default:
 			if inc, ok := incString(rr); ok {
-				samples[i] = k + nul + s + nul + inc
+				samples[i] = k + nul + s + nul + inc + extraFields(rr, nul)
 			} else {
 				samples[i] = k + nul + s
 			}
@@ -503,7 +522,7 @@ func genTable(rr *run.Rand, c *run.Ctx) (*Case, []string) {
 			row = ""
 		default:
 			if inc, ok := incString(rr); ok {
-				smp = col + delim + row + delim + inc
+				smp = col + delim + row + delim + inc + extraFields(rr, delim)
 			} else {
 				smp = col + delim + row
 			}
